@@ -91,6 +91,13 @@ TEXTS = {
         text="Theorems: presence of optional values is preserved by the non-eliding wrapper (and was lost by the eliding one: the recorded, now fixed, finding), zero elision is harmless for value-only fields, parent-id/id "
              "machinery as C01. Partial: the 13 metric tables are tied by the equivalence predicate (presence included) evaluated in Coq on real I/O of generated histories over all metric types and degenerate shapes.",
         design_ref="DESIGN.md 6/C03", note="Trusted: Coq kernel + vm_compute; no axioms; Go harness; arrow-go/zstd/CBOR assumed (validated per run). Partial: scalar columns and the composition are tied by the equivalence predicate on real I/O.", technique="Coq proof (wrappers, table codecs) + equivalence predicate in Coq on real I/O"),
+    "C04": dict(
+        text="Theorems: under every attribute ordering (any permutation of the rows) the decoder recovers all parent ids; schema evolution terminates within the retry budget for every limit, threshold, state and batch; "
+             "generated obligation: the option space of the current source is the known one. Partial: that index widths / overflow / reset / compression do not change the logical record is the Arrow transport assumption "
+             "(validated per run). Tied by decoding, with a default consumer, histories produced under every option choice and evaluating the equivalence predicate in Coq on real I/O; this exhibited the ordering and "
+             "reset-loop defects repaired by fix: commits.",
+        design_ref="DESIGN.md 6/C04", note="Trusted: Coq kernel + vm_compute; no axioms; go/ast extractor; Go harness; Arrow transport assumption.",
+        technique="Coq proof (order-independent parent-id codec, retry-loop termination) + generated option space + options x histories differential"),
 }
 
 NOT_APPLICABLE = []
